@@ -975,6 +975,7 @@ std::vector<H3Index> Gen::cellSet(int maxCells, std::string &tag) {
     // holes in islands ...), which is what findPolygonForHole has to sort out
     if (r.chance(0.12)) {
         int rings = (int)r.range(2, 5);
+        if (r.chance(0.15)) rings = (int)r.range(6, 13);  // heavy tail: a hole inside up to 13 outer loops
         H3Index center = r.chance(0.3) ? nearPentagon(res, 3) : randCell(res);
         int radius = 1;
         std::set<H3Index> acc;
